@@ -360,7 +360,10 @@ def refit_outcomes(chk, cls_info, fit, gem) -> Dict[str, Any]:
         rmse = fun("Mean")(resid ** 2) ** sp.Rational(1, 2)
         return [sp.sqrt(wsse / n), rmse, fun("Mean")(fun("Abs")(resid)), rmse / fun("Mean")(obs), rmse / fun("IQ")(obs, sp.Rational(1, 20), sp.Rational(19, 20))]
     want = dict(zip(ORDER, ref("B", list(range(len(names))))))
-    err = me.__dict__.get("error")
+    try:
+        err = getattr(me, "error")      # an instance attribute, or the class-level object when the constructor leaves it on the class
+    except AttributeError:
+        err = None
     for k in ORDER:
         v = err.get(k) if isinstance(err, dict) else None
         if not isinstance(v, SX):
